@@ -56,7 +56,7 @@ def gen(rng, tier, run):
             if r < 0.15:
                 v.append(ref_v[i])
             elif sig == 0:
-                v.append(ref_v[i] + rng.choice([0.0, 0.0, 1.0, -0.5]))
+                v.append(ref_v[i] + rng.choice([0.0, 0.0, 1.0, -0.5, 1e-9, -2e-10, 3e-13]))   # zero errors: any difference is infinite
             else:
                 v.append(ref_v[i] + rng.gauss(0, spread) * sig)
         dss.append({'v': v, 'e': e})
